@@ -389,6 +389,13 @@ def _next_op(rng, sh):
         d = rng.choice([0, 0, 500, k // 2])
         # (sometimes the transport fails or stalls exactly when the PINGREQ is written)
         pre = [rng.choice(["send e", "send e", "send b", "send a1"])] if rng.random() < 0.25 else []
+        if k >= 2000 and rng.random() < 0.25:
+            # an unanswered PINGREQ while both activity timers are kept fresh (inbound traffic; a write of which the transport
+            # takes nothing, which also refreshes the outgoing timer): only loop_misc()'s own test of the PINGREQ's age can
+            # notice the dead peer
+            sh.pending = ["loop_misc", f"tick {k}", "loop_misc", f"tick {k // 2}", f"rx publish 0 0 0 0 {hx(b't')} {hx(b'i')}", "send a0",
+                          f"publish 0 {hx(b't')} {hx(b'o')} 0", f"tick {k // 2}", "loop_misc", "loop_misc"]
+            return f"tick {d}"
         sh.pending = pre + ["loop_misc", f"tick {k - d if rng.random() < 0.3 else k}", "loop_misc"] + (["rx pingresp"] if rng.random() < 0.4 else []) + \
                      [f"tick {k}", "loop_misc", "loop_misc"]
         if rng.random() < 0.5:
